@@ -1007,3 +1007,189 @@ def check_C04(chk, binp):
     if not (panics or termbad or latebad or sbad):
         for i in bm[:3]:
             chk.violation('correspondence broken (search model, cancellation) on %s: code %s model %s' % (cases[i], (impl[i] or '')[:200], (model[i] or '')[:200]), {'kind': 'correspondence', 'case': cases[i], 'code': impl[i], 'model': model[i]}, found_input=False)
+
+# ------------------------------------------------------------------ C06 / C17
+def mate_candidates(rnd, n):
+    """positions likely to hold short forced mates: lone king near the rim against heavy pieces, side with the pieces to move"""
+    out = []
+    rim = [s for s in range(64) if s % 8 in (0, 7) or s // 8 in (0, 7)]
+    for _ in range(n):
+        bk = rnd.choice(rim)
+        near = [s for s in range(64) if s != bk and max(abs(s % 8 - bk % 8), abs(s // 8 - bk // 8)) <= 4]
+        extra = rnd.choice(['Q', 'R', 'QQ', 'RR', 'QR', 'QB', 'RN', 'QN', 'RB', 'Qp', 'RRp', 'QP'])
+        sqs = rnd.sample(near, 1 + len(extra))
+        m = {bk: 'k', sqs[0]: 'K'}
+        ok = True
+        for s, c in zip(sqs[1:], extra):
+            if c in 'Pp' and (s < 8 or s >= 56):
+                ok = False
+            m[s] = c
+        if not ok:
+            continue
+        f = G.fen_from_map(m, 'w')
+        out.append(f if rnd.random() < 0.5 else mirror_fen(f))
+    return list(dict.fromkeys(out))
+
+KEEP_DIST = {}
+KNOWN_MATES = ['r3k2r/ppp2Npp/1b5n/4p2b/2B1P2q/BQP2P2/P5PP/RN5K w kq - 1 1', '8/8/8/8/8/k2r4/8/K7 b - - 4 3',
+               'k7/8/1K6/8/8/8/8/7R w - - 0 1', '6k1/5ppp/8/8/8/8/8/3RK3 w - - 0 1']
+
+def mate_positions(chk, tag, ncand, maxn):
+    rnd = random.Random(chk.seed + 3)
+    cand = G.filter_legal(mate_candidates(rnd, ncand), tag + '-lp') + KNOWN_MATES
+    sm = run_cases(MODEL, ['specmate\t%s\t%d' % (f, maxn) for f in cand], tag + '-solve', timeout=1500)
+    wins = []
+    nomate = []
+    for f, r in zip(cand, sm):
+        if r is None:
+            continue
+        if r == 'none':
+            nomate.append(f)
+        elif r[0].isdigit():
+            n = int(r.split(' ')[0])
+            keep = {}
+            for it in r.split(' ', 1)[1].split(';'):
+                if '=' in it:
+                    mv, succ = it.split('=')
+                    succ, dist = succ.rsplit('@', 1) if '@' in succ else (succ, '0')
+                    keep[tuple(int(x) for x in mv.split('/'))] = succ
+                    KEEP_DIST[(f, tuple(int(x) for x in mv.split('/')))] = int(dist)
+            wins.append((f, n, keep))
+    return wins, nomate
+
+def check_C06(chk, binp):
+    quick = chk.tier == 'quick'
+    rnd = random.Random(chk.seed)
+    MAXN = 5
+    wins, nomate = mate_positions(chk, 'C06', 300 if quick else 12000, MAXN)
+    if quick:
+        rnd.shuffle(wins); wins = wins[:70]
+    cases = []; meta = []
+    for f, n, keep in wins:
+        for d in (n, n + 1, n + 2):
+            for workers in ([1] if quick else [1, 1]) + [rnd.choice([2, 3, 4, 8, 16, 32])]:
+                if quick and rnd.random() < 0.4 and workers != 1:
+                    continue
+                cases.append('search\t%d\t%d\t%d\t-\t%d\t%d\t%d\t-\t%s' % (rnd.randrange(1 << 30), rnd.randrange(1 << 50), d, workers, 4, 256, f))
+                meta.append((f, n, keep, d, workers))
+    # positions without a forced mate within MAXN plies: soundness (a mate claim must be true)
+    for f in rnd.sample(nomate, min(len(nomate), 120 if quick else 3000)):
+        d = rnd.choice([1, 2, 3])
+        workers = rnd.choice([1, 1, 2, 4])
+        cases.append('search\t%d\t%d\t%d\t-\t%d\t%d\t%d\t-\t%s' % (rnd.randrange(1 << 30), rnd.randrange(1 << 50), d, workers, 4, 256, f))
+        meta.append((f, None, {}, d, workers))
+    impl = run_cases(binp, cases, 'C06-impl', shards=8)
+    single = [i for i, m in enumerate(meta) if m[4] == 1 and m[3] <= (3 if quick else 4)]      # the extracted model is slow on deep searches
+    model = run_cases(MODEL, [cases[i] for i in single], 'C06-model')
+    bm = [single[j] for j in stream(chk, 'single worker: events + node trace on mate positions', [cases[i] for i in single], [impl[i] for i in single], model, 'extracted search model')]
+    incomplete = []; wrongmove = []; claims = []
+    for i, (m, out) in enumerate(zip(meta, impl)):
+        f, n, keep, d, workers = m
+        ps = parse_search(out)
+        if not ps or not ps[0]['best']:
+            if n is not None:
+                incomplete.append((i, 'no report'))
+            continue
+        ev, line = ps[0]['best'][-1]
+        if ev >= 10000:
+            claims.append((i, f, line[0] if line else None, d))
+        if n is not None:
+            if ev < 10000:
+                incomplete.append((i, 'forced mate in %d plies, depth %d, reported %d' % (n, d, ev)))
+            elif workers == 1:
+                o, t, p = raw_coords(line[0])
+                if (o, t, p) not in keep:
+                    wrongmove.append((i, 'first move %d->%d does not keep the forced mate (within %d plies)' % (o, t, MAXN - 1)))
+    # soundness: (a) on positions with a solver-known mate the first move is checked above; (b) claims on other positions are
+    # checked with a 5-ply solver where it can decide, otherwise counted as unverified; (c) exact: on material where no mate
+    # exists (K v K, K+B v K, K+N v K) and for a lone king to move, ANY terminal evaluation is a false claim
+    oth = [(i, f, mv, d) for (i, f, mv, d) in claims if mv and meta[i][1] is None]
+    q = ['speckeeps\t%s\t%s\t%d' % (f, mv, 4) for (i, f, mv, d) in oth]
+    kr = run_cases(MODEL, q, 'C06-keeps', timeout=900)
+    unsound = []; unverified = 0
+    for (i, f, mv, d), r in zip(oth, kr):
+        if r == 'illegal':
+            unsound.append((i, 'claimed mate with an illegal first move'))
+        elif r != 'keeps':
+            unverified += 1
+    chk.extra['mate_claims_beyond_solver_bound'] = unverified
+    nm = []
+    for extra in ['', 'B', 'N', 'b', 'n']:
+        nm += G.small_family(rnd, extra, 40 if quick else 1500)
+    nm = G.filter_legal(list(dict.fromkeys(nm)), 'C06-nm')
+    lone = [f for (f, n, keep) in wins][:40]      # the defender's replies: lone king to move after a null-ish flip is not legal in general, so use fresh ones
+    nmc = ['search\t%d\t%d\t%d\t-\t%d\t2\t64\t-\t%s' % (rnd.randrange(1 << 30), rnd.randrange(1 << 50), rnd.choice([1, 2, 3]), rnd.choice([1, 1, 2, 4]), f) for f in nm]
+    nmi = run_cases(binp, nmc, 'C06-nomate', shards=8)
+    for c, out in zip(nmc, nmi):
+        ps = parse_search(out)
+        if ps and any(abs(ev) >= 10000 for ev, _ in ps[0]['best']):
+            unsound.append((len(cases), 'terminal evaluation claimed on material that cannot mate'))
+            cases.append(c); impl.append(out); meta.append((c.split('\t')[-1], None, {}, 0, 0))
+    chk.streams.append({'name': 'soundness (exact): no terminal evaluation on K v K, K+minor v K', 'against': 'insufficient material (no checkmate position exists)', 'cases': len(nmc), 'disagreements': sum(1 for u in unsound if 'cannot mate' in u[1])})
+    chk.streams.append({'name': 'completeness: forced mate in n plies found at depth n..n+2 (1..32 workers)', 'against': 'forced-mate solver over the extracted rules', 'cases': sum(1 for m in meta if m[1] is not None), 'disagreements': len(incomplete)})
+    chk.streams.append({'name': 'one worker: reported first move keeps the forced mate', 'against': 'forced-mate solver over the extracted rules', 'cases': sum(1 for m in meta if m[1] is not None and m[4] == 1), 'disagreements': len(wrongmove)})
+    chk.streams.append({'name': 'soundness: every winning terminal evaluation is a real forced mate kept by the first move', 'against': 'forced-mate solver over the extracted rules', 'cases': len(q), 'disagreements': len(unsound)})
+    chk.evaluations += len(cases)
+    chk.extra['mate_distance_histogram'] = hist([m[1] for m in meta if m[1] is not None])
+    chk.extra['workers_used'] = hist([m[4] for m in meta])
+    chk.extra['mate_claims_checked'] = len(q)
+    for c in cases:
+        chk.distinct.add(c.split('\t', 2)[2])
+    chk.rule = 'positions with a forced mate in 1, 3 or 5 plies found by the solver among seeded lone-king families (+ known test positions), searched at depth n..n+2 with 1 and 2..32 workers; positions without a short forced mate for soundness'
+    chk.samples += [{'case': cases[0], 'mate_in_plies': meta[0][1], 'code': impl[0]}]
+    for i, msg in (incomplete + wrongmove + unsound)[:4]:
+        chk.violation('%s: %s -> %s' % (msg, cases[i], (impl[i] or '')[:200]), {'kind': 'input', 'case': cases[i], 'what': msg, 'code': impl[i]}, found_input=True)
+    if not (incomplete or wrongmove or unsound):
+        for i in bm[:3]:
+            chk.violation('correspondence broken (search model) on %s' % cases[i], {'kind': 'correspondence', 'case': cases[i]}, found_input=False)
+
+def check_C17(chk, binp):
+    quick = chk.tier == 'quick'
+    rnd = random.Random(chk.seed)
+    MAXN = 3 if quick else 5
+    wins, _ = mate_positions(chk, 'C17', 600 if quick else 12000, MAXN)
+    cases = []; meta = []
+    for f, n, keep in wins:
+        # record the successor of a mate-in-1 move (a checkmate position, so it cannot recur elsewhere in a line) when another
+        # first move also forces mate; the required depth is the distance of the shortest such alternative
+        m1 = [mv for mv in keep if KEEP_DIST.get((f, mv)) == 1]
+        for mv in rnd.sample(m1, min(len(m1), 2 if quick else 4)):
+            alts = [KEEP_DIST[(f, a)] for a in keep if a != mv and KEEP_DIST.get((f, a), 0) > 0]
+            if not alts:
+                continue
+            nalt = min(alts)
+            succ = keep[mv]
+            for d in (nalt, nalt + 1, nalt + 2):
+                for workers in [1] + ([rnd.choice([2, 4, 8])] if rnd.random() < 0.3 else []):
+                    cases.append('search\t%d\t%d\t%d\t-\t%d\t%d\t%d\t%s\t%s' % (rnd.randrange(1 << 30), rnd.randrange(1 << 50), d, workers, 4, 256, succ, f))
+                    meta.append((f, nalt, keep, mv, succ, d, workers))
+    cases = cases[:400 if quick else 20000]; meta = meta[:len(cases)]
+    impl = run_cases(binp, cases, 'C17-impl', shards=8)
+    single = [i for i, m in enumerate(meta) if m[6] == 1]
+    model = run_cases(MODEL, [cases[i] for i in single], 'C17-model')
+    bm = [single[j] for j in stream(chk, 'single worker: events + node trace with a recorded successor in the history', [cases[i] for i in single], [impl[i] for i in single], model, 'extracted search model (history draws)')]
+    bad = []
+    for i, (m, out) in enumerate(zip(meta, impl)):
+        f, n, keep, mv, succ, d, workers = m
+        ps = parse_search(out)
+        # is there another first move that still mates while avoiding the recorded position?  (mate in 1 alternatives always do)
+        if not ps or not ps[0]['best']:
+            bad.append((i, 'no report')); continue
+        ev, line = ps[0]['best'][-1]
+        if ev < 10000:
+            bad.append((i, 'another first move forces mate in %d plies (depth %d) but no winning terminal evaluation (%d)' % (n, d, ev)))
+        elif workers == 1 and raw_coords(line[0]) == mv:
+            bad.append((i, 'chose the move leading into the recorded position'))
+    chk.streams.append({'name': 'recorded successor is valued as a draw: mate still reported via another first move, repeating move not chosen', 'against': 'forced-mate solver over the extracted rules', 'cases': len(cases), 'disagreements': len(bad)})
+    chk.evaluations += len(cases)
+    for c in cases:
+        chk.distinct.add(c.split('\t', 2)[2])
+    chk.extra['workers_used'] = hist([m[6] for m in meta])
+    chk.rule = 'solver-decided positions with at least two mate-preserving first moves; each chosen successor recorded in the artifact history through the hook; depths n..n+2; 1 worker (exact model equality) and some 2..8 worker runs'
+    if cases:
+        chk.samples += [{'case': cases[0], 'code': impl[0]}]
+    for i, msg in bad[:4]:
+        chk.violation('%s: %s -> %s' % (msg, cases[i], (impl[i] or '')[:200]), {'kind': 'history', 'case': cases[i], 'what': msg, 'code': impl[i]}, found_input=True)
+    if not bad:
+        for i in bm[:3]:
+            chk.violation('correspondence broken (search model, history) on %s' % cases[i], {'kind': 'correspondence', 'case': cases[i]}, found_input=False)
